@@ -212,7 +212,7 @@ class Mon:
         last_obs = None
         prev_obs_for_op = None
         in_run = None     # dict(mode, stop_at_start, polls, top, stop_seen, ...)
-        close_phase = None   # set D of handles being delivered
+        self.cp = None        # closing phase: set of handles in the chain detached by uv__run_closing_handles
         truncated = False
         i = 0
         n = len(log)
@@ -226,7 +226,7 @@ class Mon:
                 o = parse_obs(l)
                 if o is None:
                     self.bad("C01", "obs-unparsable", "unparsable obs", i); i += 1; continue
-                self.check_obs(o, H, Rq, close_phase, i)
+                self.check_obs(o, H, Rq, self.cp, i)
                 if in_run is not None and o["stop"]:
                     self.note_stop(in_run, cbstack)
                 last_obs = o
@@ -315,7 +315,7 @@ class Mon:
                 elif op == "run":
                     r = in_run
                     in_run = None
-                    close_phase = None
+                    self.cp = None
                     if r is not None and nxt:
                         self.finish_run(r, ret, nxt, H, i)
                 i += 1; continue
@@ -337,7 +337,7 @@ class Mon:
                 if in_run is None:
                     self.bad("C03", "poll-outside-run", "poller called outside uv_run", i)
                 else:
-                    close_phase = None
+                    self.cp = None
                     self.on_poll(in_run, it, tmo, clock, res, last_obs, H, Rq, T, i)
                 i += 1; continue
             if l.startswith("cb "):
@@ -364,8 +364,8 @@ class Mon:
                             self.bad("C02", "close-cb-before-requests", f"close_cb of h{num} before the callbacks of its requests {owed}", i)
                         if len(w) > 3 and w[3] != "--C":
                             self.bad("C01", "flags-in-close-cb", f"handle flags inside close_cb are {w[3]} (expected inactive, unreferenced, closing)", i)
-                        if close_phase is None:
-                            close_phase = {x for x, d in H.items() if d["closing"] and not d["dead"]}
+                        if self.cp is None:
+                            self.cp = {x for x, d in H.items() if d["closing"] and not d["dead"]}
                         h["dead"] = True
                     else:
                         if kind == "timer" and num in T:
@@ -387,11 +387,11 @@ class Mon:
                             hh = H.get(q["h"])
                             if status not in (0, -125) or (status == -125 and not (hh and hh["closing"])) or (status == -125 and q["sync"]):
                                 self.bad("C02", "udp-send-status", f"send_cb status {status} (handle closing={hh and hh['closing']}, sent synchronously={q['sync']})", i)
-                            if hh and hh["closing"] and not hh["dead"] and close_phase is None:
-                                close_phase = {x for x, d in H.items() if d["closing"] and not d["dead"]}
+                            if hh and hh["closing"] and not hh["dead"] and self.cp is None:
+                                self.cp = {x for x, d in H.items() if d["closing"] and not d["dead"]}
                 if in_run is not None:
-                    if kind != "close" and not (kind == "udp_send" and close_phase is not None):
-                        if kind != "udp_send": close_phase = None
+                    if kind not in ("close", "udp_send"):
+                        self.cp = None
                     in_run["top"].append(("cb", kind, num, i))
                     self.on_top_cb(in_run, kind, num, i)
                 cbstack.append((kind, num)); depth += 1
@@ -481,7 +481,7 @@ class Mon:
     def expected_timeout(self, mode, o, obs_start, H, Rq, T):
         """(must_be_zero, value_if_not_zero, lenient)"""
         idle_now = any(H.get(h, {}).get("kind") == "idle" and f[0] == "A" for h, f in o["hs"].items())
-        closing = any(d["closing"] and not d["dead"] for d in H.values())
+        closing = any(d["closing"] and not d["dead"] and h not in (self.cp or ()) for h, d in H.items())
         zero = mode == "NOWAIT" or o["stop"] == 1 or idle_now or closing or (o["ah"] <= 0 and o["ar"] <= 0)
         lenient = any(q["owed"] and q["kind"] == "udp" for q in Rq.values())
         if mode == "ONCE" and obs_start is not None:
@@ -632,6 +632,7 @@ def watcher_exactly_once(log):
                 seg = None; continue
             if seg is not None and (seg["obs"] or seg["cbs"] or seg["first"]):
                 m = POLL_RE.match(l)
+                if not m: continue
                 it = int(m.group(1))
                 if seg.get("iter") == it:
                     # another poll of the same iteration: nothing but dispatch in between
@@ -639,7 +640,7 @@ def watcher_exactly_once(log):
                     continue
                 close_seg(seg, False, i)
             m = POLL_RE.match(l)
-            seg = dict(obs=[], cbs={}, first=False, start=i, iter=int(m.group(1)))
+            seg = dict(obs=[], cbs={}, first=False, start=i, iter=int(m.group(1))) if m else None
         elif l.startswith("obs alive") and seg is not None:
             seg["obs"].append(parse_obs(l))
         elif l.startswith("cb ") and seg is not None:
@@ -745,6 +746,7 @@ def drive(ctx, pid, modules, bias_mix, quick_n, thorough_n):
     exe = ctx.harness("sim_loop", ["harness/sim_loop.c"])
     if exe is None:
         return
+    ctx.driver(["loop"], "go\n")      # make sure the driver snapshot exists before worker threads use it
     if ctx.replay:
         rp = json.loads(Path(ctx.replay).read_text())["replay"]
         e = evaluate(ctx, exe, rp["program"], "replay")
